@@ -62,7 +62,9 @@ def _found(stored_title: str, lookup: str, ns) -> bool:
 TITLES = ["Template:Foo", "Template:Bar"]
 NS = 10
 BODIES = ["one", "two"]
-OPS = ["add0", "add1", "redirect", "get", "exists", "body", "resolve", "add0s"]
+OPS = ["add0", "add1", "redirect", "get", "exists", "body", "resolve", "add0s", "redirect_bare", "redirect_lc"]
+# how the redirect target is written in the three redirect operations (the page it names is TITLES[1 - t] in all of them)
+TARGET_SPELLING = {"redirect": lambda o: o, "redirect_bare": lambda o: o.split(":", 1)[1], "redirect_lc": lambda o: "template:" + o.split(":", 1)[1][0].lower() + o.split(":", 1)[1][1:]}
 
 
 def apply_real(op: int, t: int):
@@ -71,8 +73,8 @@ def apply_real(op: int, t: int):
     if o == "add0" or o == "add1":
         ctx.add_page(title, NS, BODIES[0 if o == "add0" else 1])
         return None
-    if o == "redirect":
-        ctx.add_page(title, NS, None, redirect_to=other)
+    if o in TARGET_SPELLING:
+        ctx.add_page(title, NS, None, redirect_to=TARGET_SPELLING[o](other))
         return None
     if o == "add0s":  # same body as add0, another content model
         ctx.add_page(title, NS, BODIES[0], model="Scribunto")
@@ -90,29 +92,30 @@ def apply_real(op: int, t: int):
 
 
 def apply_model(m: dict, op: int, t: int):
+    """dict model; a record is (title, body, redirect_to as written, model, page the redirect names)"""
     title, other = TITLES[t], TITLES[1 - t]
     o = OPS[op]
     if o == "add0" or o == "add1":
-        m[title] = (title, BODIES[0 if o == "add0" else 1], None, "wikitext")
+        m[title] = (title, BODIES[0 if o == "add0" else 1], None, "wikitext", None)
         return None
-    if o == "redirect":
-        m[title] = (title, None, other, "wikitext")
+    if o in TARGET_SPELLING:
+        m[title] = (title, None, TARGET_SPELLING[o](other), "wikitext", other)
         return None
     if o == "add0s":
-        m[title] = (title, BODIES[0], None, "Scribunto")
+        m[title] = (title, BODIES[0], None, "Scribunto", None)
         return None
     p = m.get(title)
     if o == "get":
-        return p
+        return None if p is None else p[:4]
     if o == "exists":
         return p is not None
     if o == "body":
         return None if p is None else p[1]
     if p is None:
         return None
-    if p[2] is not None:  # one hop
-        q = m.get(p[2])
-        if q is None or q[2] is not None:
+    if p[4] is not None:  # one hop
+        q = m.get(p[4])
+        if q is None or q[4] is not None:
             return None
         return (q[0], q[1])
     return (p[0], p[1])
@@ -163,7 +166,7 @@ def describe(ops):
     for op, t in ops:
         o = OPS[op]
         title = TITLES[t]
-        out.append({"add0": f"add_page({title!r}, 10, 'one')", "add1": f"add_page({title!r}, 10, 'two')", "redirect": f"add_page({title!r}, 10, None, redirect_to={TITLES[1 - t]!r})", "get": f"get_page({title!r}, 10)", "exists": f"page_exists({title!r}, 10)", "body": f"get_page({title!r}, 10).body", "resolve": f"get_page_resolve_redirect({title!r}, 10)", "add0s": f"add_page({title!r}, 10, 'one', model='Scribunto')"}[o])
+        out.append({"add0": f"add_page({title!r}, 10, 'one')", "add1": f"add_page({title!r}, 10, 'two')", "redirect": f"add_page({title!r}, 10, None, redirect_to={TITLES[1 - t]!r})", "redirect_bare": f"add_page({title!r}, 10, None, redirect_to={TARGET_SPELLING['redirect_bare'](TITLES[1 - t])!r})", "redirect_lc": f"add_page({title!r}, 10, None, redirect_to={TARGET_SPELLING['redirect_lc'](TITLES[1 - t])!r})", "get": f"get_page({title!r}, 10)", "exists": f"page_exists({title!r}, 10)", "body": f"get_page({title!r}, 10).body", "resolve": f"get_page_resolve_redirect({title!r}, 10)", "add0s": f"add_page({title!r}, 10, 'one', model='Scribunto')"}[o])
     return "; ".join(out)
 
 
